@@ -128,7 +128,12 @@ func (c *c20Case) catalogue() []ghfake.Release {
 			add(r.assetName("darwin_arm64"), ghfake.TarGz("crs-toolchain", []byte("darwin build"), 0o755))
 			add(r.assetName("windows_amd64")[:len(r.assetName("windows_amd64"))-7]+".zip", []byte("PK not really"))
 		}
-		if r.Platform == "linux" || r.Platform == "both" {
+		if r.Platform == "linux-arm" || r.Platform == "arm-first" {
+			// the same OS, another architecture (listed before the native archive)
+			add(r.assetName("linux_arm64"), ghfake.TarGz("crs-toolchain", []byte("arm64 build "+r.Tag), 0o755))
+			add(r.assetName("linux_armv7"), ghfake.TarGz("crs-toolchain", []byte("armv7 build "+r.Tag), 0o755))
+		}
+		if r.Platform == "linux" || r.Platform == "both" || r.Platform == "arm-first" {
 			linuxBody = archive()
 			add(r.assetName("linux_amd64"), linuxBody)
 		}
@@ -162,7 +167,7 @@ func (c *c20Case) model() (string, int, string) {
 		if !v.ok {
 			continue
 		}
-		if r.Platform != "linux" && r.Platform != "both" {
+		if r.Platform != "linux" && r.Platform != "both" && r.Platform != "arm-first" {
 			continue
 		}
 		if best < 0 || v.cmp(bestV) > 0 {
@@ -341,6 +346,9 @@ func c20Cases(env *core.Env, rng *rand.Rand) []core.Case {
 		{"archive-corrupt", []c20Release{with(good("v9.9.9"), func(r *c20Release) { r.Archive = "corrupt" })}},
 		{"archive-without-binary", []c20Release{with(good("v9.9.9"), func(r *c20Release) { r.Archive = "nobinary" })}},
 		{"other-platform-only", []c20Release{with(good("v9.9.9"), func(r *c20Release) { r.Platform = "other" })}},
+		{"other-architecture-only", []c20Release{with(good("v9.9.9"), func(r *c20Release) { r.Platform = "linux-arm" })}},
+		{"other-architecture-listed-first", []c20Release{with(good("v9.9.9"), func(r *c20Release) { r.Platform = "arm-first" })}},
+		{"other-architecture-newest", []c20Release{with(good("v9.9.9"), func(r *c20Release) { r.Platform = "linux-arm" }), good("v2.5.0")}},
 		{"no-assets", []c20Release{with(good("v9.9.9"), func(r *c20Release) { r.Platform = "none"; r.Checksum = "none" })}},
 		{"empty-catalogue", nil},
 		{"only-draft", []c20Release{with(good("v9.9.9"), func(r *c20Release) { r.Draft = true })}},
@@ -388,7 +396,7 @@ func c20Cases(env *core.Env, rng *rand.Rand) []core.Case {
 			}
 			used[t] = true
 			c.Releases = append(c.Releases, c20Release{Tag: t, Draft: core.Chance(rng, 1, 8), Prerelease: core.Chance(rng, 1, 8),
-				Platform: core.Pick(rng, "both", "both", "linux", "other", "none"), Checksum: core.Pick(rng, "match", "match", "match", "mismatch", "otherfile", "none", "empty"),
+				Platform: core.Pick(rng, "both", "both", "linux", "other", "none", "linux-arm", "arm-first"), Checksum: core.Pick(rng, "match", "match", "match", "mismatch", "otherfile", "none", "empty"),
 				Archive: core.Pick(rng, "good", "good", "good", "good", "corrupt", "nobinary")})
 		}
 		if core.Chance(rng, 1, 4) {
@@ -403,7 +411,7 @@ func init() {
 	register(&core.Property{
 		ID:    "C20",
 		Level: "fault_enumeration",
-		Rule: "the built CLI (variants with main.version = v2.0.0, v0.0.0-dev, empty -> 'dev', v2.1.0-rc.1 and v3.0.0-beta.2), copied into a sandbox, runs `self-update` against a fake of the GitHub release API (TLS-intercepting CONNECT proxy, selected only through HTTPS_PROXY / SSL_CERT_FILE). Enumerated: 26 catalogues (newer verified release, checksum mismatching / for another file / empty / missing, corrupt archive, archive without the binary, other platforms only, no assets, empty catalogue, draft, pre-release, older, equal, equal but tampered, non-semver tag, rc tag, newest release unusable with an older usable one behind it, unordered catalogues) x 5 running versions, and for four flows one HTTP fault (500, 404, truncated body, connection reset, empty 200) at each request index 1..4 x 2 running versions; plus PRNG catalogues of 0..6 releases with random attributes and faults. " +
+		Rule: "the built CLI (variants with main.version = v2.0.0, v0.0.0-dev, empty -> 'dev', v2.1.0-rc.1 and v3.0.0-beta.2), copied into a sandbox, runs `self-update` against a fake of the GitHub release API (TLS-intercepting CONNECT proxy, selected only through HTTPS_PROXY / SSL_CERT_FILE). Enumerated: 29 catalogues (newer verified release, checksum mismatching / for another file / empty / missing, corrupt archive, archive without the binary, other platforms only, another architecture of the same OS only / listed first, no assets, empty catalogue, draft, pre-release, older, equal, equal but tampered, non-semver tag, rc tag, newest release unusable with an older usable one behind it, unordered catalogues) x 5 running versions, and for four flows one HTTP fault (500, 404, truncated body, connection reset, empty 200) at each request index 1..4 x 2 running versions; plus PRNG catalogues of 0..6 releases with random attributes and faults. " +
 			"Oracle: a model of the statement decides install / fail / nothing-to-do; install: exit 0 and the executable equals the payload of the best release's linux_amd64 asset and is executable; fail: sha256 unchanged and exit != 0; nothing-to-do: unchanged. Trace property over the fake's request log: the executable changes only if the asset and the checksum file of the same release were both served completely. No file is left next to the executable; no runtime fault or panic. Non-trivial = every scenario.",
 		Cases:         c20Cases,
 		Check:         c20Check,
